@@ -194,8 +194,14 @@ pub fn short_case(case: &Case) -> serde_json::Value {
 /// may differ by f32 accumulation rounding. Returns the admissible difference for `path`
 /// (0.0 = must be bitwise equal).
 pub fn cross_eval_band(path: &str, rf: &RefOut) -> f64 {
-    if path.starts_with("balance_cr.") || path == "k_exp" || path == "arearef" {
+    if path == "k_exp" || path == "arearef" {
         return 0.0;
+    }
+    if path.starts_with("balance_cr.") {
+        // per-carrier results are reproducible except for the derived cogeneration factor, a sum over a
+        // HashMap of fuel carriers (order matters in f32 from three fuels on) and regenerated auxiliaries:
+        // a few ulps of the field's cancellation scale
+        return rf.get(path).map(|v| if v.s.is_finite() { 6e-7 * v.s } else { f64::INFINITY }).unwrap_or(0.0);
     }
     let s = rf.get(path).map(|v| v.s);
     match s {
@@ -283,4 +289,19 @@ pub fn dhw_guards_clear(spec: &Spec, c: f32) -> bool {
         }
     }
     true
+}
+
+/// per-carrier results of two evaluations are bitwise equal only if no auxiliaries are regenerated (their order
+/// varies) and the cogeneration factor sums at most two fuel carriers (f32 addition of three terms is order dependent)
+pub fn per_carrier_deterministic(spec: &Spec) -> bool {
+    use crate::spec::Line;
+    let mut fuels: Vec<&str> = vec![];
+    for l in &spec.lines {
+        if let Line::Used { srv, cr, .. } = l {
+            if srv == "COGEN" && !fuels.contains(&cr.as_str()) {
+                fuels.push(cr.as_str());
+            }
+        }
+    }
+    !spec.has_aux() && fuels.len() <= 2
 }
